@@ -125,6 +125,24 @@ func (x *Exec) runTop() {
 		a.Typ = p.Type()
 		fr.vals[p] = a
 	}
+	// objects passed by pointer are well-typed at entry and every reference they hold
+	// existed at entry
+	for i, p := range fn.Params {
+		pt := pointee(p.Type())
+		if pt == nil {
+			continue
+		}
+		if su, ok := asStruct(pt); ok {
+			ss := x.S.SortOf(pt)
+			nn := mkNot(mkEq(args[i].T, intLit(0)))
+			for f := 0; f < su.NumFields(); f++ {
+				a := &Addr{Kind: akField, Ref: args[i].T, SSort: ss, Struct: su, Field: f, RootT: su.Field(f).Type(), T: su.Field(f).Type()}
+				fv := x.readRoot(st, a)
+				x.assume(mkImp(nn, x.typeInv(fv, su.Field(f).Type(), 0)))
+				x.assume(mkImp(nn, x.refsBelow(fv, su.Field(f).Type(), st.Alloc, 0)))
+			}
+		}
+	}
 	env := x.envAt(fr, fn.Blocks[0], st)
 	for _, g := range ct.Ghost {
 		t := x.resolveType(env, g.Type)
